@@ -301,32 +301,50 @@ def _prod(key):
 
 
 def _reject():
-    from furax._base.blocks import BlockColumnOperator, BlockRowOperator
-    from furax._base.core import HomothetyOperator, IdentityOperator
+    """Row (shared OUTPUT structure) and column (shared INPUT structure) operators must refuse, with ValueError, exactly the block
+    tuples whose shared structures differ - in leaf shape, leaf dtype or pytree structure (container kind, keys, nesting) - wherever
+    the odd block stands; block-diagonal operators accept everything."""
+    from furax._base.blocks import BlockColumnOperator, BlockDiagonalOperator, BlockRowOperator
+    from furax._base.core import IdentityOperator
     from furax._base.dense import DenseBlockDiagonalOperator
     bad = []
-    a3, a2 = IdentityOperator(S(3)), IdentityOperator(S(2))
-    w = DenseBlockDiagonalOperator(jnp.ones((2, 3)), S(3), 'ij,j->i')  # 3 -> 2
-    f32 = IdentityOperator(S(3, dtype=jnp.float32))
-    tests = [
-        (BlockRowOperator, [a3, a2], True), (BlockRowOperator, {'a': a3, 'b': w}, True), (BlockRowOperator, [a3, f32], True),
-        (BlockRowOperator, [w, a2], False), (BlockRowOperator, (a3, [a3, a2]), True),
-        (BlockColumnOperator, [a3, a2], True), (BlockColumnOperator, {'a': a2, 'b': w}, True), (BlockColumnOperator, [a3, f32], True),
-        (BlockColumnOperator, [a3, w], False), (BlockColumnOperator, {'x': [a3], 'y': (w, a2)}, True),
-    ]
-    for cls, blocks, must in tests:
-        try:
-            cls(blocks)
-            if must:
-                bad.append(f'{cls.__name__} accepted mismatching blocks {jax.tree.map(lambda o: type(o).__name__, blocks, is_leaf=lambda o: hasattr(o, "mv"))}')
-        except ValueError:
-            if not must:
-                bad.append(f'{cls.__name__} rejected matching blocks')
-        except Exception as ex:  # noqa: BLE001
-            bad.append(f'{cls.__name__}: {type(ex).__name__} instead of ValueError')
+    s2, s3 = S(2), S(3)
+    pool = {
+        'i3': IdentityOperator(s3), 'i2': IdentityOperator(s2), 'i3f32': IdentityOperator(S(3, dtype=jnp.float32)),
+        'w': DenseBlockDiagonalOperator(jnp.ones((2, 3)), s3, 'ij,j->i'), 'v': DenseBlockDiagonalOperator(jnp.ones((3, 2)), s2, 'ij,j->i'),
+        'i21': IdentityOperator(S(2, 1)),
+        'dxy': IdentityOperator({'x': s2, 'y': s3}), 'duv': IdentityOperator({'u': s2, 'v': s3}), 'tup': IdentityOperator((s2, s3)),
+        'lst': IdentityOperator([s2, s3]), 'nest': IdentityOperator({'x': s2, 'y': {'z': s3}}), 'dyx': IdentityOperator({'x': s3, 'y': s2}),
+        'dxy2': IdentityOperator({'x': s2, 'y': s3}),
+    }
+    names = list(pool)
+    tuples = [(a, b) for a in names for b in names]
+    tuples += [t for a in names for b in names if a != b for t in ((a, a, b), (a, b, a), (b, a, a))]
+    n = 0
+    for cls, shared in ((BlockRowOperator, 'out_structure'), (BlockColumnOperator, 'in_structure'), (BlockDiagonalOperator, None)):
+        for t in tuples:
+            ops = [pool[k] for k in t]
+            ref = getattr(ops[0], shared)() if shared else None
+            must = shared is not None and any(not structs_equal(getattr(o, shared)(), ref) for o in ops[1:])
+            for cont in ('list', 'dict', 'nest') if len(t) == 2 or cls is not BlockDiagonalOperator else ('list',):
+                blocks = make_container(cont, ops)
+                n += 1
+                try:
+                    op = cls(blocks)
+                    if must:
+                        bad.append(f'{cls.__name__}({cont} of {t}) accepts blocks whose {shared}s differ')
+                    elif shared:
+                        got = getattr(op, shared)()
+                        if not structs_equal(got, ref):
+                            bad.append(f'{cls.__name__}({cont} of {t}).{shared}() = {describe_struct(got)}, blocks share {describe_struct(ref)}')
+                except ValueError:
+                    if not must:
+                        bad.append(f'{cls.__name__}({cont} of {t}) refuses blocks with matching {shared or "structures"}')
+                except Exception as ex:  # noqa: BLE001
+                    bad.append(f'{cls.__name__}({cont} of {t}): {type(ex).__name__} instead of ValueError')
     if bad:
-        return violation('block constructor validation: ' + '; '.join(bad), signature='c10-reject:' + ';'.join(bad)[:150], kind='reject')
-    return ok(obligations=len(tests), nontrivial=True, sample=dict(case='constructor refusals', n=len(tests)))
+        return violation(f'block constructor validation ({len(bad)} of {n}): ' + '; '.join(bad[:4]), signature='c10-reject:' + ';'.join(sorted(set(b.split("(")[0] + b.split(")")[-1] for b in bad)))[:150], kind='reject')
+    return ok(obligations=n, nontrivial=True, sample=dict(case='constructor refusals', n=n))
 
 
 def replay(key, model, info):
